@@ -111,6 +111,7 @@ def c20(rec, tier):
     F = D(rec)
     f6_kinds.run(rec, F)
     f4_gc.relocation_layout(rec, F)
+    f4_gc.own_block_layout(rec, F)
     f4_sched.complete_releases_links(rec, F)
     f4_gc.growth_progress(rec, F)
     f4_gc.sweep_siblings(rec, F)
